@@ -5,7 +5,8 @@
    untranslated kernels as oracle fields; `scale_setup a b s` multiplies power by a and deff by b. *)
 From Coq Require Import Reals Bool List.
 From SpdVerif Require Import Base.Rx Model.SpectrumSetup Gen.Spectrum Gen.Efficiencies Model.Spectrum
-  Proofs.C07_scaling Proofs.C07_envelope Proofs.C07_support Proofs.C07_defined Proofs.C07_examples.
+  Spec.Normalization
+  Proofs.C07_scaling Proofs.C07_envelope Proofs.C07_support Proofs.C07_defined Proofs.C07_spec Proofs.C07_examples.
 Local Open Scope R_scope.
 
 (* ---------- 1. linearity in power, quadratic in deff; for ALL inputs (no side condition) *)
@@ -71,6 +72,19 @@ Theorem C07_hom_invariant : forall c l,
   sum_list (map (fun t : (R * R) * (R * R) * (R * R) => fst (fst (fst t)) * fst (fst (fst t)) + snd (fst (fst t)) * snd (fst (fst t))) l) <> 0 ->
   hom_rate_model (map (scale_triple c) l) = hom_rate_model l.
 Proof. exact hom_rate_scale_invariant. Qed.
+
+(* the generated normalisation equals the hand-pinned reference form (Spec/Normalization.v): constants 2pi, c, eps0 in the
+   UCUM base, the 2/pi poling coefficient, and the structure Wp^2 (deff L)^2 ws wi/(ns ni)^2 P / sigma; unconditional *)
+Theorem C07_norm_matches_spec : forall ws wi s,
+  common_norm ws wi s =
+  spec_common_norm (pp_off s) (wpx s) (wpy s) (deff s) (len s) (power s)
+    (spec_width (spec_omega_of_lambda (omega_p s)) (fwhm s)) ws wi (n_s s ws) (n_i s wi).
+Proof. exact common_norm_spec. Qed.
+
+Theorem C07_frequency_conversion_spec : forall l f,
+  vacuum_wavelength_to_frequency l = 2 * PI * 299792458 / l /\ frequency_to_vacuum_wavelength l = 2 * PI * 299792458 / l /\
+  fwhm_to_spectral_width l f = (2 * PI * 299792458 / (l - f / 2) - 2 * PI * 299792458 / (l + f / 2)) / sqrt (2 * ln 2).
+Proof. exact (fun l f => conj (proj1 (conversion_spec l)) (conj (proj2 (conversion_spec l)) (width_spec l f))). Qed.
 
 (* ---------- 2. the Gaussian envelope *)
 Theorem C07_envelope_center : forall s, pump_spectral_amplitude (omega_p s) s = 1.
@@ -156,6 +170,8 @@ Print Assumptions C07_efficiencies_invariant.
 Print Assumptions C07_normalized_invariant.
 Print Assumptions C07_schmidt_invariant.
 Print Assumptions C07_hom_invariant.
+Print Assumptions C07_norm_matches_spec.
+Print Assumptions C07_frequency_conversion_spec.
 Print Assumptions C07_envelope_center.
 Print Assumptions C07_envelope_half_max.
 Print Assumptions C07_envelope_half_max_only.
